@@ -205,11 +205,15 @@ func c07Route(args []string) error {
 		src := fmt.Sprintf("%s#%d", *in, i)
 		// second = the node is visited twice in one run (a second node sends the run back once) with operands that differ
 		// only by a trailing space: the result saved by the second visit must carry the second operand
+		viaDefault := false // the translation is reached through the environment's default language, not the contact's
 		runOne := func(second bool) error {
 			op := rc.Op
 			if second {
 				src += "/second"
 				op = rc.Op + " "
+			}
+			if viaDefault {
+				src += "/via-default-language"
 			}
 			resetGenerators(1)
 			// tests such as has_date read the clock: it must show the same time to the engine and to callTest
@@ -312,8 +316,14 @@ func c07Route(args []string) error {
 			}
 			c := contactJSON()
 			c["language"] = lang
+			allowed := []string{"eng", "fra"}
+			if viaDefault {
+				// contact language spa (allowed, nothing translated into it), default language fra (translated), base eng
+				c["language"] = "spa"
+				allowed = []string{"fra", "spa"}
+			}
 			t := M{"type": "manual", "flow": M{"uuid": flowUUID(1), "name": "Flow 1"}, "contact": c, "params": M{"op": rc.Op, "op2": rc.Op + " "}, "triggered_on": "2018-07-06T12:00:00Z",
-				"environment": M{"allowed_languages": []string{"eng", "fra"}, "date_format": "YYYY-MM-DD", "time_format": "tt:mm", "timezone": "UTC"}}
+				"environment": M{"allowed_languages": allowed, "date_format": "YYYY-MM-DD", "time_format": "tt:mm", "timezone": "UTC"}}
 			trig, err := readTrigger(sa, mustJSON(t))
 			if err != nil {
 				errs = append(errs, src+": "+err.Error())
@@ -372,7 +382,14 @@ func c07Route(args []string) error {
 			return err
 		}
 		if rc.Kind == "switch" && rc.Rn {
-			return runOne(true)
+			if err := runOne(true); err != nil {
+				return err
+			}
+		}
+		if rc.Kind == "switch" && rc.Fra {
+			src = fmt.Sprintf("%s#%d", *in, i)
+			viaDefault = true
+			return runOne(false)
 		}
 		return nil
 	})
